@@ -89,6 +89,7 @@ type ChanObj struct {
 	Buf    []Value
 	Cap    int
 	Closed bool
+	Timer  bool // created by time.After: ready only when nothing else can run
 }
 
 type RangeIter struct {
